@@ -63,6 +63,7 @@ type termKey struct {
 }
 
 type Store struct {
+	bytes  [256]*Term
 	vars   map[string]*Term
 	tab    map[termKey]*Term
 	nextID uint32
@@ -75,6 +76,9 @@ func NewStore() *Store {
 	s := &Store{tab: map[termKey]*Term{}, vars: map[string]*Term{}, nextID: 1}
 	s.True = s.mk(OpConst, 0, nil, nil, nil, 1, "")
 	s.False = s.mk(OpConst, 0, nil, nil, nil, 0, "")
+	for i := range s.bytes {
+		s.bytes[i] = s.mk(OpConst, 8, nil, nil, nil, uint64(i), "")
+	}
 	return s
 }
 
@@ -118,6 +122,9 @@ func (s *Store) Const(w uint8, v uint64) *Term {
 			return s.True
 		}
 		return s.False
+	}
+	if w == 8 {
+		return s.bytes[v&255]
 	}
 	return s.mk(OpConst, w, nil, nil, nil, v&mask(w), "")
 }
